@@ -4,10 +4,17 @@
 package c03
 
 import (
+	"bytes"
+	"context"
 	"fmt"
 	"sort"
+	"strings"
 	"sync"
 	"time"
+
+	wmodel "github.com/metrico/qryn/writer/model"
+	"github.com/metrico/qryn/writer/utils/numbercache"
+	"github.com/metrico/qryn/writer/utils/unmarshal"
 
 	"verif/harness/engines/chw"
 	"verif/harness/engines/gen"
@@ -59,6 +66,117 @@ func Main(c *run.Ctx) {
 		c.Floor("proto:"+p, 1, 0)
 	}
 	c.Floor("multi-chunk bodies", 2, 0)
+	c.Floor("multi-stream bodies checked for stream isolation", c.Pick(100, 2000), 0)
+}
+
+type nocache struct{}
+
+func (nocache) CheckAndSet(k uint64) bool              { return false }
+func (n nocache) DB(string) numbercache.ICache[uint64] { return n }
+
+var isoParsers = map[string]unmarshal.ParsingFunction{
+	"loki-json-values": unmarshal.DecodePushRequestStringV2, "loki-json-entries": unmarshal.DecodePushRequestStringV2, "loki-proto": unmarshal.UnmarshalProtoV2,
+	"remote-write": unmarshal.UnmarshallMetricsWriteProtoV2, "influx-log": unmarshal.UnmarshalInfluxDBLogsV2, "influx-metric": unmarshal.UnmarshalInfluxDBLogsV2,
+	"datadog-logs": unmarshal.UnmarshallDatadogV2JSONV2, "datadog-metrics": unmarshal.UnmarshallDatadogMetricsV2JSONV2, "otlp-logs": unmarshal.UnmarshalOTLPLogsV2,
+}
+
+// docsOf runs the exported parser of the protocol over a body holding the given streams and returns, per
+// stream id, the label document(s) and fingerprint(s) it produced.
+func docsOf(c *run.Ctx, gi int, tag string, proto string, streams []gen.Stream) (map[string]map[string]bool, error) {
+	r := c.Rng(fmt.Sprintf("c03/iso/%d/%s", gi, tag))
+	rq := gen.Render(r, proto, gen.LogCase{Streams: streams})
+	body := rq.Body
+	if proto == "loki-proto" || proto == "remote-write" {
+		b, err := gen.Unsnappy(body)
+		if err != nil {
+			return nil, err
+		}
+		body = b
+	}
+	out := map[string]map[string]bool{}
+	var perr error
+	for rsp := range isoParsers[proto](context.Background(), bytes.NewReader(body), nocache{}) {
+		if rsp.Error != nil {
+			perr = rsp.Error
+			continue
+		}
+		if ts, ok := rsp.TimeSeriesRequest.(*wmodel.TimeSeriesData); ok && ts != nil {
+			for k, doc := range ts.MLabels {
+				sid := chw.SidIn(doc)
+				if sid == "" {
+					continue
+				}
+				if out[sid] == nil {
+					out[sid] = map[string]bool{}
+				}
+				// the document's key order is not part of the identity: compare the decoded label set
+				canon := doc
+				if m, err := gen.StrictJSONStringMap([]byte(doc)); err == nil {
+					kv := make([]string, 0, len(m))
+					for _, l := range m {
+						kv = append(kv, fmt.Sprintf("%q=%q", l[0], l[1]))
+					}
+					sort.Strings(kv)
+					canon = "{" + strings.Join(kv, ",") + "}"
+				}
+				out[sid][fmt.Sprintf("%d %s", ts.MFingerprint[k], canon)] = true
+			}
+		}
+	}
+	return out, perr
+}
+
+// isolation: what a stream becomes (label document, fingerprint) must not depend on which other streams travel
+// in the same body, nor on their order: the body with all streams, the body with the streams reversed and a body
+// per stream must agree for every stream.
+func isolation(c *run.Ctx, gi int, proto string, lc gen.LogCase) {
+	if isoParsers[proto] == nil {
+		return
+	}
+	full, err := docsOf(c, gi, "full", proto, lc.Streams)
+	if err != nil {
+		return // rejected bodies are the main monitor's subject
+	}
+	rev := append([]gen.Stream{}, lc.Streams...)
+	for i, j := 0, len(rev)-1; i < j; i, j = i+1, j-1 {
+		rev[i], rev[j] = rev[j], rev[i]
+	}
+	variants := map[string][]gen.Stream{"reversed": rev}
+	for k, st := range lc.Streams {
+		variants[fmt.Sprintf("alone-%d", k)] = []gen.Stream{st}
+	}
+	names := make([]string, 0, len(variants))
+	for n := range variants {
+		names = append(names, n)
+	}
+	sort.Strings(names)
+	c.Floor("multi-stream bodies checked for stream isolation", 0, 1)
+	for _, n := range names {
+		got, err := docsOf(c, gi, n, proto, variants[n])
+		if err != nil {
+			continue
+		}
+		for _, st := range variants[n] {
+			a, b := keysOf(full[st.SID]), keysOf(got[st.SID])
+			if len(a) == 0 || len(b) == 0 {
+				continue // streams without entries of the kind the protocol stores
+			}
+			if strings.Join(a, " | ") != strings.Join(b, " | ") {
+				c.Violation("stream-depends-on-neighbours/"+proto, fmt.Sprintf("%s: stream %s becomes %v in the body with all %d streams but %v in the body %q: its series identity depends on the other entries of the request",
+					proto, st.SID, first(a, 2), len(lc.Streams), first(b, 2), n), map[string]any{"case_index": gi, "proto": proto, "streams": lc.Streams, "variant": n})
+				return
+			}
+		}
+	}
+}
+
+func keysOf(m map[string]bool) []string {
+	out := make([]string, 0, len(m))
+	for k := range m {
+		out = append(out, k)
+	}
+	sort.Strings(out)
+	return out
 }
 
 func tail(s string, n int) string {
@@ -114,6 +232,9 @@ func Child(c *run.Ctx, name string) {
 		lc := gen.NewLogCase(r, o)
 		rq := gen.Render(r, proto, lc)
 		ne := len(rq.Expect)
+		if len(lc.Streams) >= 2 && len(lc.Streams) <= 6 && !o.Big {
+			isolation(c, gi, proto, lc)
+		}
 		key := fmt.Sprintf("%s|multi=%v|streams=%s|entries=%s|hostile=%v", proto, rq.MultiChunk, classN(len(lc.Streams)), classN(ne), o.Hostile)
 		items[i] = &item{idx: gi, req: rq, lc: lc, key: key}
 	}
@@ -163,6 +284,32 @@ func Child(c *run.Ctx, name string) {
 				map[string]any{"cfg": cfg, "block": b.Seq, "cols": b.ColNames, "rows": b.ColRows})
 		}
 	}
+	// two different streams under one fingerprint: inherent with the optional 32-bit Bernstein fingerprint (birthday
+	// bound reached at ~10^5 label sets), a defect with the default 64-bit one
+	sidsOfFP := map[uint64]map[string]bool{}
+	for _, sr := range ix.Series {
+		if sid := chw.SidIn(sr.Labels); sid != "" {
+			if sidsOfFP[sr.FP] == nil {
+				sidsOfFP[sr.FP] = map[string]bool{}
+			}
+			sidsOfFP[sr.FP][sid] = true
+		}
+	}
+	collided := map[string]bool{}
+	for fp, ss := range sidsOfFP {
+		if len(ss) < 2 {
+			continue
+		}
+		names := keysOf(ss)
+		if cfg.Writer.Bernstein {
+			for _, n := range names {
+				collided[n] = true
+			}
+			c.Cover("not-judged", "streams sharing a 32-bit Bernstein fingerprint with another stream", len(names))
+		} else {
+			c.Violation("fingerprint-collision", fmt.Sprintf("streams %v share fingerprint %d", names, fp), map[string]any{"cfg": cfg, "streams": names})
+		}
+	}
 	fpOfSid := map[string]map[uint64]bool{}
 	for fp, sid := range ix.SIDofFP {
 		if fpOfSid[sid] == nil {
@@ -190,6 +337,13 @@ func Child(c *run.Ctx, name string) {
 		for _, e := range it.req.Expect {
 			exp[chw.ExpKey(e)]++
 			sids[e.SID] = true
+		}
+		skip := false
+		for sid := range sids {
+			skip = skip || collided[sid]
+		}
+		if skip {
+			continue
 		}
 		var missing, extra []string
 		got := map[string]int{}
